@@ -118,6 +118,36 @@ pub(super) fn not_a_module(
     diagnostics.push(diagnostic);
 }
 
+pub(super) fn annotation_kind_mismatch(
+    coordinates: &pavexc_annotations::AnnotationCoordinates,
+    annotation_kind: pavexc_attr_parser::AnnotationKind,
+    id: UserComponentId,
+    db: &AuxiliaryData,
+    diagnostics: &crate::diagnostic::DiagnosticSink,
+) {
+    let registered_kind = db[id].kind();
+    let source = diagnostics.annotated(
+        db.registration_target(&id),
+        format!("Registered as a {registered_kind} here"),
+    );
+    let e = anyhow::anyhow!(
+        "You registered `{}` as a {registered_kind}, but the item with that id in `{}` \
+        is a Pavex {annotation_kind}.",
+        coordinates.id,
+        coordinates.created_at.package_name,
+    );
+    let diagnostic = CompilerDiagnostic::builder(e)
+        .optional_source(source)
+        .help(format!(
+            "Register `{}` using the `Blueprint` method that matches its annotation. \
+            If two components in `{}` share this id, use the `id` macro argument \
+            to change the identifier of one of them.",
+            coordinates.id, coordinates.created_at.package_name
+        ))
+        .build();
+    diagnostics.push(diagnostic);
+}
+
 pub(super) fn invalid_prebuilt_type(
     e: PrebuiltTypeValidationError,
     resolved_path: &str,
